@@ -1462,7 +1462,7 @@ fn eval_call(
                         bindings.push((
                             (
                                 RawExpr::Var{name: "this".to_string()},
-                                (0, 0),
+                                (*line, *col),
                             ),
                             value::new_val_ref_with_no_source(this),
                         ));
